@@ -236,6 +236,22 @@ def setup_store(spec):
 def crash_run(spec):
     backend, root = spec['backend'], spec['root']
     setup_store(spec)
+    blob = None
+    if spec.get('handle_via') == 'pickle':
+        # the handle every later process works with is restored from one pickle of a handle (a pickled cache or memoised
+        # function carries its archive this way): whatever travels in the handle's state is shared by those processes
+        def mk():
+            import dill
+            return dill.dumps(open_handle(backend, root, cached=False))
+        blob, _ = run_plain(mk)
+        if not isinstance(blob, bytes):
+            raise RuntimeError('could not pickle a %s handle: %r' % (backend, blob))
+
+    def get_handle():
+        if blob is not None:
+            import dill
+            return dill.loads(blob)
+        return open_handle(backend, root, cached=False)
     er, ew = os.pipe()
     mode = {'log': 1, 'kill': 2}[spec['mode']]
 
@@ -248,7 +264,7 @@ def crash_run(spec):
         lib().fsg_config(root.encode(), 0, -1, -1, -1, 0, 0)      # tracking of fds under root starts here
         h = None
         if spec['op'][0] != 'open' or spec.get('handle_first'):
-            h = open_handle(backend, root, cached=False)
+            h = get_handle()
         for op in spec.get('pre_ops', ()):      # thorough: a first operation without faults on the same handle
             run_op(h, op, ctx)
         lib().fsg_config(root.encode(), mode, ew, -1, spec.get('kill_at', -1), spec.get('kill_short', 0), 0)
@@ -268,7 +284,17 @@ def crash_run(spec):
     _, status = os.waitpid(pid, 0)
     killed = os.WIFSIGNALED(status) and os.WTERMSIG(status) == signal.SIGKILL
     rec, _ = run_plain(lambda: recovery(backend, root))
-    return {'events': events.decode(errors='replace').splitlines(), 'killed': killed, 'result': res, 'recovery': rec}
+    out = {'events': events.decode(errors='replace').splitlines(), 'killed': killed, 'result': res, 'recovery': rec}
+    if spec.get('post_ops'):
+        # life goes on after the crash: another process (handle obtained the same way) stores something else, without
+        # faults; then a fresh process looks again
+        def post():
+            ctx = {'backend': backend, 'root': root}
+            h = get_handle()
+            return [safe_op(h, op, ctx) for op in spec['post_ops']]
+        out['post_result'], _ = run_plain(post)
+        out['recovery2'], _ = run_plain(lambda: recovery(backend, root))
+    return out
 
 
 # ---------------------------------------------------------------------------
